@@ -124,6 +124,10 @@ int cp_ecies_dec(uint8_t *out, size_t *out_len, const ec_t r, const uint8_t *in,
 	bn_null(x);
 	ec_null(p);
 
+	if (in_len < RLC_MD_LEN + RLC_BC_LEN) {
+		return RLC_ERR;
+	}
+
 	RLC_TRY {
 		bn_new(x);
 		ec_new(p);
